@@ -68,7 +68,7 @@ func (f *fakeTempo) spans() []*model.SpanResponse {
 			EndTimeUnixNano:   c.U + uint64(i),
 			Attributes: []*common.KeyValue{
 				{Key: c.H, Value: &common.AnyValue{Value: &common.AnyValue_StringValue{StringValue: c.H}}},
-				{Key: "service.name", Value: &common.AnyValue{Value: &common.AnyValue_StringValue{StringValue: "svc" + c.H}}},
+				{Key: "service.name", Value: &common.AnyValue{Value: &common.AnyValue_StringValue{StringValue: c.H}}},
 				{Key: "b", Value: &common.AnyValue{Value: &common.AnyValue_BoolValue{BoolValue: i%2 == 0}}},
 				{Key: "i", Value: &common.AnyValue{Value: &common.AnyValue_IntValue{IntValue: int64(c.U)}}},
 				{Key: "d", Value: &common.AnyValue{Value: &common.AnyValue_DoubleValue{DoubleValue: math.Float64frombits(c.FBits)}}},
@@ -82,7 +82,7 @@ func (f *fakeTempo) spans() []*model.SpanResponse {
 		if i > 0 {
 			sp.ParentSpanId = []byte{1, 2, 3, 4, 5, 6, 7, byte(i - 1)}
 		}
-		out = append(out, &model.SpanResponse{Span: sp, ServiceName: "svc" + c.H})
+		out = append(out, &model.SpanResponse{Span: sp, ServiceName: c.H})
 	}
 	return out
 }
